@@ -34,3 +34,12 @@ def intRange (lo hi : Int) (inclusive : Bool) : List Int :=
 def whileFuel {σ : Type} : Nat → (σ → Bool) → (σ → σ) → σ → σ
   | 0, _, _, s => s
   | n + 1, c, f, s => if c s then whileFuel n c f (f s) else s
+
+/-- saturating float→unsigned cast at `bits` bits (`x as u8` …) applied after truncation -/
+def satNat (bits : Nat) (n : Nat) : Nat := Nat.min n (2 ^ bits - 1)
+
+/-- saturating float→signed cast at `bits` bits -/
+def satInt (bits : Nat) (n : Int) : Int :=
+  let hi : Int := (2 : Int) ^ (bits - 1) - 1
+  let lo : Int := -((2 : Int) ^ (bits - 1))
+  if n > hi then hi else if n < lo then lo else n
